@@ -215,3 +215,35 @@ Definition map_step (m : list (Z * Z)) (o : map_op) : list (Z * Z) * res :=
   end.
 
 Definition MapSpec : Spec := mkSpec [] map_step.
+
+(** ** Boolean equality of abstract states, for [Lin.lincheck_memo].
+    [zlist_eqb] serves every specification above except [MapSpec], which uses [zzlist_eqb]. *)
+
+Fixpoint zlist_eqb (a b : list Z) : bool :=
+  match a, b with
+  | [], [] => true
+  | x :: a', y :: b' => Z.eqb x y && zlist_eqb a' b'
+  | _, _ => false
+  end.
+
+Fixpoint zzlist_eqb (a b : list (Z * Z)) : bool :=
+  match a, b with
+  | [], [] => true
+  | (x1, x2) :: a', (y1, y2) :: b' => Z.eqb x1 y1 && Z.eqb x2 y2 && zzlist_eqb a' b'
+  | _, _ => false
+  end.
+
+Lemma zlist_eqb_sound : forall a b, zlist_eqb a b = true -> a = b.
+Proof.
+  induction a as [|x a IH]; destruct b as [|y b]; simpl; try discriminate; auto.
+  intros H; apply andb_true_iff in H; destruct H as [H1 H2].
+  apply Z.eqb_eq in H1; apply IH in H2; congruence.
+Qed.
+
+Lemma zzlist_eqb_sound : forall a b, zzlist_eqb a b = true -> a = b.
+Proof.
+  induction a as [|[x1 x2] a IH]; destruct b as [|[y1 y2] b]; simpl; try discriminate; auto.
+  intros H; apply andb_true_iff in H; destruct H as [H H3].
+  apply andb_true_iff in H; destruct H as [H1 H2].
+  apply Z.eqb_eq in H1; apply Z.eqb_eq in H2; apply IH in H3; congruence.
+Qed.
